@@ -13,17 +13,24 @@ type DynamicalType interface {
 func EventuallyCreateType(name string, param interface{}) (bool, error) {
 	for _, dyn := range AllDynamicalTypes {
 		if dyn.MatchName(name) {
-			for _, op := range AllTypes {
-				if op.GetName() == name {
-					return false, nil
-				}
+			if GetType(name) != nil {
+				return false, nil
 			}
 
 			if newType, err := dyn.CreateType(name, param); err != nil {
 				return false, err
 			} else {
+				matchers := newType.importMatchers()
+				registryMu.Lock()
+				defer registryMu.Unlock()
+				// Someone else may have registered it in the meantime
+				for _, op := range AllTypes {
+					if op.GetName() == name {
+						return false, nil
+					}
+				}
 				AllTypes = append(AllTypes, newType)
-				for k, v := range newType.importMatchers() {
+				for k, v := range matchers {
 					AllMatchers[k] = v
 				}
 				return true, nil
